@@ -124,20 +124,31 @@ func verifC24FromStreamMP3(rate int, unitPTS int64, frames int) (spf int, ms []i
 	for i := 0; i < frames; i++ {
 		payload = append(payload, frame)
 	}
+	// the RTMP reader consumes the first frames while it detects the tracks: send single-frame units first
+	for k := int64(3); k >= 1; k-- {
+		sub.WriteUnit(medias[0], medias[0].Formats[0], &unit.Unit{
+			PTS: unitPTS - k*90000, Payload: unit.PayloadMPEG1Audio{frame},
+		})
+	}
 	sub.WriteUnit(medias[0], medias[0].Formats[0], &unit.Unit{PTS: unitPTS, Payload: payload})
 
-	timeout := time.After(5 * time.Second)
-	for len(ms) < frames {
+	// the frames of the unit under test are the last ones: collect until nothing arrives for a while
+	timeout := time.After(3 * time.Second)
+	for {
 		select {
 		case v := <-received:
 			ms = append(ms, v)
+			continue
 		case err = <-clientErr:
 			return 0, nil, err
 		case <-timeout:
 			return 0, nil, errors.New("timeout")
+		case <-time.After(60 * time.Millisecond):
+		}
+		if len(ms) >= frames {
+			return h.SampleCount(), ms[len(ms)-frames:], nil
 		}
 	}
-	return h.SampleCount(), ms, nil
 }
 
 func init() {
